@@ -11,7 +11,8 @@ struct ghost_cp {
 	long nw;		/* bytes of the input the child has accepted */
 	int wr_bad;
 	int waited, made, done_calls;
-	int rd_ret, rev0, rev1, rev2;
+	int out_err, in_err;	/* poll reported an error / hang-up condition (and no data) on the pipe */
+	int premature;		/* a pipe end was closed although it was neither finished nor in error and poll had not failed */
 } CP;
 static long strlen_hook(const char *s) { return s == CI.ibuf && s != 0 ? CI.slen : -1; }
 static struct sbuf { int d; } g_cpsb;
@@ -44,6 +45,10 @@ int poll(struct pollfd *fds, nfds_t n, int timeout)
 	fds[2].revents = fds[2].fd >= 0 ? (short) nondet_int() : 0;
 	if (r < 0)
 		CP.poll_neg = 1;
+	if (!(fds[0].revents & POLLIN) && (fds[0].revents & (POLLERR | POLLHUP | POLLNVAL)))
+		CP.out_err = 1;
+	if (!(fds[1].revents & POLLOUT) && (fds[1].revents & (POLLERR | POLLHUP | POLLNVAL)))
+		CP.in_err = 1;
 	return r;
 }
 ssize_t read(int fd, void *buf, size_t n)
@@ -80,11 +85,15 @@ int close(int fd)
 	if (fd == CI.ofd && fd >= 0) {
 		if (CP.out_closed)
 			CP.bad_close = 1;
+		if (!CP.out_done && !CP.out_err && !CP.poll_neg)
+			CP.premature = 1;
 		CP.out_closed = 1;
 	}
 	if (fd == CI.ifd && fd >= 0) {
 		if (CP.in_closed)
 			CP.bad_close = 1;
+		if (!CP.in_done && !CP.in_err && !CP.poll_neg)
+			CP.premature = 1;
 		CP.in_closed = 1;
 	}
 	return 0;
@@ -105,7 +114,7 @@ int inv_cmd_pipe(int fd0, int fd1, int fd2, int nw, int oproc, int slen)
 	return (fd2 == -1 || fd2 == 0) && (fd0 == -1 || fd0 == (oproc ? CI.ofd : -1)) && (fd1 == -1 || fd1 == (CI.ibuf ? CI.ifd : -1)) &&
 		(oproc ? ((fd0 == -1) == (CP.out_closed != 0)) : (!CP.out_closed)) &&
 		(CI.ibuf ? ((fd1 == -1) == (CP.in_closed != 0)) : (!CP.in_closed)) &&
-		!CP.bad_close && !CP.wr_bad && CP.appended == CP.chunks && 0 <= nw && nw == CP.nw && nw <= slen && slen == CI.slen &&
+		!CP.bad_close && !CP.premature && !CP.wr_bad && CP.appended == CP.chunks && 0 <= nw && nw == CP.nw && nw <= slen && slen == CI.slen &&
 		(CP.chunks > 0 ==> CP.last_append == CP.last_chunk) && !CP.waited && CP.done_calls == 0 &&
 		(CP.out_closed ==> 1) && (CP.in_closed ==> (CP.in_done || 1));
 }
@@ -130,7 +139,7 @@ void h_cmd_pipe(void)
 		CI.ibuf[CI.slen] = 0;
 	}
 	CP.poll_neg = CP.polls = CP.out_done = CP.in_done = CP.out_closed = CP.in_closed = CP.bad_close = CP.chunks = CP.appended = 0;
-	CP.nw = 0; CP.wr_bad = CP.waited = CP.made = CP.done_calls = 0; CP.last_chunk = CP.last_append = 0;
+	CP.nw = 0; CP.wr_bad = CP.waited = CP.made = CP.done_calls = 0; CP.out_err = CP.in_err = CP.premature = 0; CP.last_chunk = CP.last_append = 0;
 	char *r = cmd_pipe(cmd, CI.ibuf, oproc);
 	if (CI.pid <= 0) {
 		H_ASSERT(r == 0 && CP.polls == 0 && !CP.waited, "cmd_pipe: a child that cannot be started gives no result");
@@ -140,13 +149,12 @@ void h_cmd_pipe(void)
 	H_ASSERT(CP.appended == CP.chunks, "cmd_pipe: every chunk read from the child is appended to the result, once");
 	H_ASSERT(CP.waited == 1, "cmd_pipe: the child is waited for");
 	H_ASSERT(r == (oproc ? g_cpres : (char *) 0) && CP.done_calls == (oproc ? 1 : 0), "cmd_pipe: the collected output is returned when it was asked for");
-	if (!CP.poll_neg) {
-		/* a poll that merely times out does not end the exchange */
-		if (oproc)
-			H_ASSERT(CP.out_closed, "cmd_pipe: the output is collected until the child's pipe reports end-of-file or an error, however long that takes");
-		if (has_in)
-			H_ASSERT(CP.in_closed, "cmd_pipe: the input pipe is closed only after the child took everything or an error");
-	}
+	/* a poll that merely times out does not end the exchange */
+	H_ASSERT(!CP.premature, "cmd_pipe: unless poll itself fails, the output pipe is closed only after end-of-file or an error, the input pipe only after the child took everything or an error - however many time-outs occur in between");
+	if (oproc)
+		H_ASSERT(CP.out_closed, "cmd_pipe: the output pipe is closed in the end");
+	if (has_in)
+		H_ASSERT(CP.in_closed, "cmd_pipe: the input pipe is closed in the end");
 #ifdef CANARY
 	__CPROVER_assert(0, "canary");
 #endif
